@@ -29,17 +29,23 @@ META = {
 finding_key = e2e.finding_key("C05")
 
 
-def J(name, template, lens, flagsets=(3,), split=16, chunk=30):
-    return {"name": name, "h": "e2e", "params": {"template": template, "lens": lens, "flagsets": list(flagsets)}, "split": split, "chunk": chunk,
+def J(name, template, lens, flagsets=(3,), split=16, chunk=30, **extra):
+    return {"name": name, "h": "e2e", "params": dict({"template": template, "lens": lens, "flagsets": list(flagsets)}, **extra), "split": split, "chunk": chunk,
             "max_paths": 300000}
 
 
 def jobs(tier):
     if tier == "quick":
         return [J("T4-9", "T4", [9]), J("T4-10", "T4", [10], flagsets=(0, 3)), J("T3-16", "T3", [16], flagsets=(2,)), J("T6-12", "T6", [12], flagsets=(3,)), J("T8-8-8", "T8", [8, 8], flagsets=(3,)),
-                J("JPSSC-71", "JPSS_CONTRIVED", [71])]
+                J("JPSSC-71", "JPSS_CONTRIVED", [71]), J("O|T4-10", "O|T4", [10]),      # O|: the ContainerSet written in reverse order
+                # the root container is not the default one: named when the document is loaded / in the generator call / in a direct parse_ccsds_packet call
+                J("R|T4-10-load", "R|T4", [10], root_mode="load"), J("R|T4-9-gen", "R|T4", [9], root_mode="gen"), J("R|T4-10-direct-load", "R|T4", [10], via="direct", root_mode="load")]
     out = [J(f"T4-{n}", "T4", [n], flagsets=(0, 1, 2, 3)) for n in (8, 9, 10, 11)]
     out += [J(f"T3-{n}", "T3", [n], flagsets=(1, 2)) for n in (15, 16, 17)]
+    out += [J(f"R|T4-{n}-{m}", "R|T4", [n], flagsets=(0, 3), root_mode=m) for n in (9, 10) for m in ("load", "gen")]
+    out += [J(f"O|T4-{n}", "O|T4", [n], flagsets=(0, 3)) for n in (9, 10)] + [J("O|JPSSC-71", "O|JPSS_CONTRIVED", [71])]
+    out += [J("R|T4-10-direct-load", "R|T4", [10], via="direct", root_mode="load"), J("R|T4-9-direct-gen", "R|T4", [9], via="direct", root_mode="gen"),
+            J("R|JPSSC-71-load", "R|JPSS_CONTRIVED", [71], root_mode="load")]
     out += [J("T8-8-8", "T8", [8, 8], flagsets=(0, 3)), J("T8-9-8-8", "T8", [9, 8, 8], flagsets=(3,)), J("T6-12", "T6", [12], flagsets=(0, 3)), J("T6-13", "T6", [13], flagsets=(3,)), J("T7-8", "T7", [8], flagsets=(3,)), J("JPSSC-71", "JPSS_CONTRIVED", [71], flagsets=(0, 3)), J("JPSS-71", "JPSS", [71], flagsets=(2,)), J("T1-19", "T1", [19], flagsets=(2,))]
     return out
 
